@@ -379,3 +379,20 @@ def shared_settings_histories(fields):
             out.append({"kind": "shared_settings", "field": field, "labels": labels, "settings": {"myst_enable_extensions": ["dollarmath", "strikethrough"], "myst_heading_anchors": 2},
                         "texts": texts})
     return out
+
+
+def settings_value_histories(have_linkify=False):
+    """ONE settings object reused across publish calls while a myst_* value on it changes (setattr): for every configuration
+    field and its values v0, vi: steps (v0, vi, vi, v0) and (vi, v0, v0, vi); the 2nd and 4th call use settings.copy()."""
+    out = []
+    for name, typ, default in config_fields():
+        vals = delta_values(name, typ, default, have_linkify)
+        if len(vals) < 2:
+            continue
+        base = {k: v for k, v in DELTA_BASE.items()}
+        for i in range(1, len(vals)):
+            for order in ((0, i, i, 0), (i, 0, 0, i)):
+                steps = [{"text": DELTA_DOC, "values": dict(base, **{f"myst_{name}": vals[k]}), "copy": pos % 2 == 1, "label": k}
+                         for pos, k in enumerate(order)]
+                out.append({"kind": "settings_values", "field": name, "steps": steps, "files": dict(DELTA_FILES)})
+    return out
